@@ -186,14 +186,14 @@ PROPS['C14'] = dict(
     modules=['Vivid.Props.C14', 'Vivid.Props.C14SendLoop'],
     gens=[],
     engines=[dict(name='framing', must_hit=['cut', 'undecodable', 'invalid-length']),
-             dict(name='sendloop', must_hit=['op:break', 'op:down', 'op:up', 'limit:0', 'limit:1', 'limit:2']),
+             dict(name='sendloop', must_hit=['op:break', 'op:fin', 'op:down', 'op:up', 'limit:0', 'limit:1', 'limit:2']),
              dict(name='remote', nomodel=True, must_hit=['rm:refused', 'rm:recover', 'rm:cut-mid', 'rm:cut-prefix', 'rm:cut-mid-limit0'])],
     rule='framing: streams cut after every byte offset (inside a prefix, inside a body, between frames), frames with invalid length or undecodable payload: events compared with the model receiver. '
          'sendloop: the real Mailbox.Enqueue / ExponentialBackoff.Try in a real system against a harness-owned peer that accepts, refuses (down), resets the connection (break) and returns (up): per Tell sent/dead, and at the end '
          'the peer\'s received sequence, the dead letters and the number of accepted connections, compared with the model for budgets 0..2. remote (monitor only): refused peer -> exactly one dead letter per message, Tell latency; '
          'recovery; connection reset inside a prefix / a body -> received is a duplicate-free in-order subsequence, nothing both delivered and dead, tail delivered.',
     trusted_base=COMMON_TRUST + ['net.Pipe / loopback TCP with SO_LINGER 0 resets as the fault injector', 'wall-clock waits (<= 300 ms) to decide "dead-lettered" vs "received"'],
-    assumptions=['faults modelled: refused dial and connection reset (the next write fails). An orderly FIN close, after which the kernel accepts one more write that is then lost without a dead letter, is not modelled (the property allows loss: "a subsequence")',
+    assumptions=['faults modelled: refused dial, connection reset (the next write fails) and orderly close by the peer (the reader marks the connection closed)',
                  'partial: "Tell returns promptly" is a runtime fact; the code as found violates it (KNOWN-FINDING TELL-BLOCKS), measured by the remote engine'],
     explanation='Receiver: a stream cut at any byte yields a prefix of the sent frames, garbage frames are skipped (C14_cut_prefix, C14_resync). Sender: dead letter iff all limit+1 attempts fail (closed form), recovery with budget >= 1, one fault costs at most one message, delivered/dead are an order-preserving partition of the sent sequence (C14_partition).',
 )
